@@ -79,9 +79,9 @@ def jsonable(x):
         return bool(x)
     if isinstance(x, float):
         if x != x:
-            return "nan"
+            return {"__float__": "nan"}
         if x in (float("inf"), float("-inf")):
-            return "inf" if x > 0 else "-inf"
+            return {"__float__": "inf" if x > 0 else "-inf"}
         return x
     if isinstance(x, complex):
         return [x.real, x.imag]
@@ -91,9 +91,9 @@ def jsonable(x):
 
 
 def unfloat(x):
-    """inverse of the float encoding of jsonable (nan/inf strings)"""
-    if isinstance(x, str) and x in ("nan", "inf", "-inf"):
-        return float(x)
+    """inverse of the float encoding of jsonable (non-finite floats are written as {"__float__": "nan"|"inf"|"-inf"})"""
+    if isinstance(x, dict) and list(x) == ["__float__"]:
+        return float(x["__float__"])
     if isinstance(x, list):
         return [unfloat(v) for v in x]
     if isinstance(x, dict):
